@@ -608,6 +608,78 @@ def r09_9(chk, P, E):
     return n
 
 
+def r09_10(chk, P):
+    chk.rule('R09.10', 'the search for the end of a link runs to convergence: in _bisect_forward_serialno the loop guarded by '
+             '`searched < endsearched` (the lower bound is the parameter the body advances with vf->offset, the upper bound the '
+             'local it lowers to the probe position) is left only through its guard or through an error return.  The first '
+             'page of the next link is known only when the interval is empty: a probe in the bisection phase can land inside a '
+             'later link, and the foreign page it meets is then not the one that follows this link')
+    F = P.need('_bisect_forward_serialno')
+    lower = set()
+    for e in F.nodes('assign'):
+        nd = F.ex[e]
+        l = F.ex[F.strip_casts(nd['c'][0])]
+        if nd['op'] == '=' and l['k'] == 'ref' and l['decl'].get('kind') == 'param' and _handle_state(F, F.strip_casts(nd['c'][1])) == 'offset':
+            lower.add(l['decl']['id'])
+    chk.require(len(lower) == 1, '_bisect_forward_serialno: lower-bound parameter not identified')
+    pid = next(iter(lower))
+    loops = cfg.loops(F)
+    hs = []
+    for h, body in loops.items():
+        t = F.blocks[h].get('term') or {}
+        c = t.get('cond')
+        if c is None:
+            continue
+        cn = F.ex[F.strip_casts(c)]
+        if cn['k'] == 'bin' and cn['op'] in ('<', '<='):
+            a = F.ex[F.strip_casts(cn['c'][0])]
+            if a['k'] == 'ref' and a['decl'].get('id') == pid:
+                hs.append(h)
+    chk.require(hs, '_bisect_forward_serialno: the narrowing loop was not found')
+    n = 0
+    for h in hs:
+        body = loops[h]
+        bad = []
+        for b in body:
+            if b == h:
+                continue
+            for s_ in F.blocks[b]['succs']:
+                if s_ is None or s_ in body:
+                    continue
+                # an exit from inside the body: allowed when every return it reaches is an error return
+                seen, st, ok = set(), [s_], True
+                while st:
+                    x = st.pop()
+                    if x in seen or x is None:
+                        continue
+                    seen.add(x)
+                    for e in F.blocks[x]['elems']:
+                        if F.ex[e]['k'] == 'ret':
+                            v = common.const_val(F, F.ex[e]['c'][0]) if F.ex[e].get('c') else None
+                            rn = F.ex[F.strip_casts(F.ex[e]['c'][0])] if F.ex[e].get('c') else None
+                            nonzero = False
+                            if rn is not None and rn['k'] == 'ref':
+                                for c_, pol in common.controlling_conditions(F, e):
+                                    cn_ = F.ex[F.strip_casts(c_)]
+                                    if pol and cn_['k'] == 'ref' and cn_['decl'].get('id') == rn['decl'].get('id'):
+                                        nonzero = True          # `if(ret)return(ret);`
+                                    if pol and cn_['k'] == 'bin' and cn_['op'] == '<' and common.const_val(F, cn_['c'][1]) == 0 and \
+                                            F.ex[F.strip_casts(cn_['c'][0])].get('decl', {}).get('id') == rn['decl'].get('id'):
+                                        nonzero = True          # `if(x<0)return(x);`
+                            if not ((v is not None and v < 0) or nonzero):
+                                ok = False
+                    st += [y for y in F.blocks[x]['succs'] if y is not None]
+                if not ok:
+                    bad.append(b)
+        n += 1
+        line = F.loc(F.blocks[bad[0]]['elems'][-1]) if bad and F.blocks[bad[0]]['elems'] else None
+        chk.ob('R09.10', F.name, f'narrowing-loop-exits-by-its-guard@{F.loc(F.blocks[h]["term"]["cond"])}', not bad, F.where(F.blocks[h]['term']['cond']),
+               'left only through the guard or through error returns' if not bad else
+               f'the loop can be left from inside its body (near line {line}) with the interval still open, and the function goes on '
+               'to record a link boundary: the foreign page met by a probe need not be the first page after this link')
+    return n
+
+
 def run(chk, P):
     r09_7(chk, P)
     chk.floor('R09.7', 4)
@@ -628,6 +700,8 @@ def run(chk, P):
     chk.floor('R09.8', 3)
     r09_9(chk, P, E)
     chk.floor('R09.9', 2)
+    r09_10(chk, P)
+    chk.floor('R09.10', 1)
     import frames
     frames.c09(chk, P)
     chk.trusted += ['clang 14 front end', 'exact evaluation of subscript expressions for L = 0,1,2 (linear forms)', 'K4 symbolic bounds']
